@@ -26,7 +26,7 @@ RULE = ('one "element" case per (table variant, Z): the element, each of its iso
         'neighbours (symbol/name case flips, truncations and extensions; A+-1 and other isotope numbers not in the element; '
         'q+-1, 0, +-10, 100 not in the ions, on the element and on every isotope; 9 malformed and 10 other-notation A-Sym spellings of every '
         "isotope; 'A-D'/'A-T'; odd keys), and change_table public->private, private->public, private->private for every "
-        'atom. The thorough tier adds table variants, i.e. process histories: the public table after every lazy loader '
+        'atom. The seed only permutes the order in which charges and isotopes are visited (seed 0: increasing; cache-order effects). The thorough tier adds table variants, i.e. process histories: the public table after every lazy loader '
         'ran, a second private table created late (mass+density+nsf initialised) and a bare private table (no mass.init: '
         'only D/T plus isotopes added on demand in decreasing order), and six more change_table pairs. distinct = distinct '
         '(variant, Z, A, q) atoms swept + distinct (variant, route, key) invalid keys that raised + distinct (src, dst, Z, A, q) '
@@ -50,6 +50,9 @@ TIMEOUT = {'quick': 600, 'thorough': 3600}
 ASSUMPTIONS = ['the element_base literal in core.py and the rows of mass.isotope_mass define which atoms exist (data, not mechanism)',
                "lenient spellings that int() accepts ('056-Fe', ' 56-Fe', '+56-Fe', '56 -Fe', '5_6-Fe') and '0-Sym' denote the "
                'same atom numerically; they are observations, not invalid keys, but must not return a different atom',
+               'keys outside the design list of invalid neighbours (white-space padded symbols/names, a name given to symbol()/isotope(), '
+               "a symbol given to name(), other notations of the same isotope such as 'Fe[56]', '56 Fe', '56.0-Fe') are expected to raise, "
+               'and do on the pinned tree; a library that accepted them would be flagged only if it returned another atom than the one named',
                'numerically equal keys (26.0, True) are outside the property and not exercised',
                'the alias symbols/names D, T, deuterium, tritium are the documented names of H[2] and H[3]']
 
@@ -146,12 +149,18 @@ def ionset_returns_the_cached_ion_of_that_charge(self, charge, result):
     return True
 
 
+def _key_text(x):
+    """The key as the caller wrote it, without white-space padding (padding is not in the
+    design's invalid list; see _Ev.soft_invalid)."""
+    return x.strip() if isinstance(x, str) else x
+
+
 def symbol_returns_the_atom_with_that_symbol(self, input, result):
     _s['evals']['PeriodicTable.symbol'] += 1
     core = _s['core']
     if not isinstance(result, (core.Element, core.Isotope)):
         return _broken('PeriodicTable.symbol', 'symbol(%r) returned %r' % (input, result))
-    if result.symbol != input or not _owner_ok(self, result):
+    if _key_text(input) not in (result.symbol, result.name) or not _owner_ok(self, result):
         return _broken('PeriodicTable.symbol', 'symbol(%r) returned %r (symbol %r) %s'
                        % (input, result, result.symbol, '' if _owner_ok(self, result) else 'of another table'))
     return True
@@ -162,28 +171,57 @@ def name_returns_the_atom_with_that_name(self, input, result):
     core = _s['core']
     if not isinstance(result, (core.Element, core.Isotope)):
         return _broken('PeriodicTable.name', 'name(%r) returned %r' % (input, result))
-    if result.name != input or not _owner_ok(self, result):
+    if _key_text(input) not in (result.name, result.symbol) or not _owner_ok(self, result):
         return _broken('PeriodicTable.name', 'name(%r) returned %r (name %r)' % (input, result, result.name))
     return True
 
 
+def _number_in(text):
+    """Integer a piece of text denotes under any notation (int(), integral float, 0x..);
+    0 for no text; None when it denotes no integer."""
+    text = text.strip(' \t\n-[]')
+    if text == '':
+        return 0
+    for parse in (int, float, _int0):
+        try:
+            v = parse(text)
+            if v == int(v):
+                return int(v)
+        except Exception:
+            continue
+    return None
+
+
+def _int0(text):
+    return int(text, 0)
+
+
+def _names_and_number(text, names, number):
+    """One of *names* stands in *text* as a whole word and what remains denotes *number*."""
+    import re
+    for n in names:
+        m = re.search(r'(?<![A-Za-z])%s(?![A-Za-z])' % re.escape(n), text)
+        if m and _number_in(text[:m.start()] + ' ' + text[m.end():]) == number:
+            return True
+    return False
+
+
 def isotope_returns_the_atom_the_string_denotes(self, input, result):
+    """The returned atom is the table's own, its symbol (or name) is literally in the key, and
+    the number the key carries is its isotope number (none/0 for an element or for D/T).  The
+    notation is deliberately left open - which *spellings* must be rejected is judged by the
+    must-raise sweep - so that this condition can only fail when another atom than the one the
+    key names comes back."""
     _s['evals']['PeriodicTable.isotope'] += 1
     core = _s['core']
-    if not isinstance(result, (core.Element, core.Isotope)) or not _owner_ok(self, result):
+    if not isinstance(result, (core.Element, core.Isotope)) or not _owner_ok(self, result) or not isinstance(input, str):
         return _broken('PeriodicTable.isotope', 'isotope(%r) returned %r' % (input, result))
-    head, dash, sym = input.rpartition('-')
-    try:
-        A = int(head) if dash else 0
-    except Exception:
-        return _broken('PeriodicTable.isotope', 'isotope(%r) returned %r for a non-integer isotope number' % (input, result))
     if isinstance(result, core.Isotope):
-        if A == 0:
-            ok = result.symbol == sym and 'symbol' in result.__dict__     # D or T
-        else:
-            ok = result.element.symbol == sym and result.isotope == A
+        el = result.element
+        alias = [result.__dict__[k] for k in ('symbol', 'name') if k in result.__dict__]    # D/T
+        ok = _names_and_number(input, alias, 0) or _names_and_number(input, (el.symbol, el.name), result.isotope)
     else:
-        ok = result.symbol == sym and A == 0
+        ok = _names_and_number(input, (result.symbol, result.name), 0)
     if not ok:
         return _broken('PeriodicTable.isotope', 'isotope(%r) returned %r' % (input, result))
     return True
@@ -634,8 +672,17 @@ def check_element(ctx, case):
         ctx.violation('%s: two iterations over %s give different objects' % (variant, sym), route='Element.__iter__',
                       key=list(key), kind='iteration')
 
+    # visiting order of charges and isotopes: natural for order 0, else shuffled (cache-order effects)
+    ions_order, isos_order = list(ions), list(isos)
+    if case.get('order'):
+        import random
+        r = random.Random(case['order'])
+        r.shuffle(ions_order)
+        r.shuffle(isos_order)
+    pos = {A: n for n, A in enumerate(isos)}
+
     # --- element ions
-    for q in ions:
+    for q in ions_order:
         key = (Z, 0, q)
         x = ev.fetch('.ion[q]', key, lambda: e.ion[q])
         if x is None:
@@ -650,7 +697,8 @@ def check_element(ctx, case):
 
     # --- isotopes and their ions
     picked = set(_picked_isotopes(isos, Z, case.get('stride', 1), case.get('offset', 0)))
-    for idx, A in enumerate(isos):
+    for A in isos_order:
+        idx = pos[A]
         key = (Z, A, 0)
         try:
             i = e[A]
@@ -690,7 +738,7 @@ def check_element(ctx, case):
         swept.append(i)
         if A not in picked:
             continue
-        for q in ions:
+        for q in (ions_order if A % 2 else ions_order[::-1]):
             key = (Z, A, q)
             y = ev.fetch('isotope.ion[q]', key, lambda: i.ion[q])
             if y is None:
@@ -803,11 +851,13 @@ def check_invalid(ctx, case):
         for v in _padded(n_):
             ev.soft_invalid('T.name(padded)', v, lambda: T.name(v), obj)
     # a symbol is not a name, a name is not a symbol
-    ev.must_raise('T.name(symbol)', sym, lambda: T.name(sym))
-    ev.must_raise('T.symbol(name)', name, lambda: T.symbol(name))
-    ev.must_raise('T.isotope(name)', name, lambda: T.isotope(name))
-    ev.must_raise("T.isotope('A-name')", name, lambda: T.isotope('%d-%s' % (someA, name)))
-    ev.must_raise('getattr(T,name)', name, lambda: getattr(T, name), _not_atom)
+    # (soft: a route that also understood the other kind of key would have to return this very element)
+    ev.soft_invalid('T.name(symbol)', sym, lambda: T.name(sym), e)
+    ev.soft_invalid('T.symbol(name)', name, lambda: T.symbol(name), e)
+    ev.soft_invalid('T.isotope(name)', name, lambda: T.isotope(name), e)
+    if isos:
+        ev.soft_invalid("T.isotope('A-name')", '%d-%s' % (someA, name), lambda: T.isotope('%d-%s' % (someA, name)), e[someA])
+    ev.soft_invalid('getattr(T,name)', name, lambda: getattr(T, name), e)
     # --- names
     for _, variants in names:
         for v in sorted(variants - M.valid_names):
@@ -1108,7 +1158,7 @@ def generate(ctx):
         for Z in M.zs:
             if ctx.mine(i):
                 case = {'table': variant, 'Z': Z, 'stride': stride, 'offset': (Z + ctx.seed) % max(stride, 1),
-                        'protocols': protocols}
+                        'protocols': protocols, 'order': ctx.rng.randrange(1, 1 << 30) if ctx.seed else 0}
                 if variant == 'bare':
                     case['add'] = _on_demand(Z, M)
                 yield 'element', case
